@@ -112,7 +112,7 @@ impl Chain {
                     ));
                 }
             } else if l.pos == d + 1 {
-                let mut f = FileSpec::new("plug/myplugin.py", vec![Item::fixture("fx", &[])]);
+                let mut f = FileSpec::new("plug/myplugin.py", vec![fxdef(l)]);
                 f.plugin = true;
                 files.push(f);
             } else if l.pos == d + 2 {
@@ -143,6 +143,9 @@ impl Chain {
                         vec![(false, false, false, false, false, false, false, false), (false, true, false, false, false, false, false, false), (false, false, true, false, false, false, false, false), (false, true, true, false, false, false, false, false), (false, true, false, true, false, false, false, false), (false, true, true, true, false, false, false, false), (false, true, false, false, true, false, false, false), (false, true, true, false, true, false, false, false), (false, true, false, false, false, true, false, false), (false, true, false, true, false, true, false, false), (false, true, false, false, false, false, true, false), (false, true, false, true, false, false, true, false)]
                     } else if p <= depth {
                         vec![(false, false, false, false, false, false, false, false), (false, true, false, false, false, false, false, false), (true, false, false, false, false, false, false, false), (true, true, false, false, false, false, false, false), (false, true, false, true, false, false, false, false), (true, true, false, true, false, false, false, false), (false, true, false, false, true, false, false, false), (false, true, false, false, false, true, false, false), (false, true, false, false, false, false, true, false), (true, false, false, false, false, false, false, true), (true, true, false, false, false, false, false, true)]
+                    } else if p == depth + 1 {
+                        // the workspace plugin may override a third-party fixture and request it
+                        vec![(false, false, false, false, false, false, false, false), (false, true, false, false, false, false, false, false), (false, true, false, true, false, false, false, false)]
                     } else {
                         vec![(false, false, false, false, false, false, false, false)]
                     }
